@@ -86,9 +86,14 @@ func (h *Engine) Configure(serverConfig core.ServerConfig) error {
 		}
 	}
 
-	h.applyRateLimiterMiddleware(h.server, serverConfig)
 	h.applyLoggerMiddleware(h.server, []string{"/metrics", "/status", "/health"}, h.config.Log)
-	return h.applyAuthMiddleware(h.server, "/internal", h.config.Internal.Auth)
+	if err := h.applyAuthMiddleware(h.server, "/internal", h.config.Internal.Auth); err != nil {
+		return err
+	}
+	// The rate limiter comes after authentication (middleware runs in the order it is added): a request that fails
+	// authentication is answered 401 and must not use up the limiter's budget.
+	h.applyRateLimiterMiddleware(h.server, serverConfig)
+	return nil
 }
 
 func (h *Engine) configureClient(serverConfig core.ServerConfig) {
